@@ -894,8 +894,11 @@ def call_str_method(ip, st, recv, name, args, kwargs):
         return ip.specs.call(ip, st, 'lower' if name != 'upper' else 'upper', [recv], {})
     if name == 'count':
         raise Unsupported('count on symbolic string')
-    if name == 'hex':
-        raise Unsupported('hex on symbolic bytes')
+    if name == 'hex' and not args:
+        # bytes.hex(): an unconstrained string of twice the length (over-approximation: only its length is known)
+        h = fresh('hex', 'str')
+        st.assume(z3.Length(h.t) == 2 * z3.Length(s))
+        return h
     raise Unsupported('str method %s on symbolic value' % name)
 
 
